@@ -677,13 +677,16 @@ class XsdElement(XsdComponent, ParticleMixin,
                     for counter in context.identities.values():
                         if counter.enabled and \
                                 (xsd_type, counter.identity) not in self.xsi_types:
-                            self.xsi_types.add((xsd_type, counter.identity))
                             if xpath_element is None:
                                 xpath_element = XPathElement(self.name, xsd_type)
                             try:
                                 counter.identity.update_elements(xpath_element)
                             except TypeError as e:
                                 context.validation_error(validation, self, e, obj)
+
+                            # Registered only when the update is complete: another
+                            # thread that shares the schema must not skip it before.
+                            self.xsi_types.add((xsd_type, counter.identity))
 
         if xsd_type.abstract:
             reason = _("%r is abstract") % xsd_type
@@ -884,7 +887,7 @@ class XsdElement(XsdComponent, ParticleMixin,
             xsd_element._set_type(xsd_type)
 
         # Collect field values for identities that refer to this XSD element.
-        for identity in self.selected_by:
+        for identity in tuple(self.selected_by):  # other threads can extend the set
             try:
                 counter = context.identities[identity]
             except KeyError:
